@@ -116,6 +116,9 @@ class Execution:
             s.progress()
             s.log("ApiCall", n=info["n"], token=info["token"], updates=[[i, a] for i, a in info["updates"]],
                   inv=self.rec.inv)
+        elif kind == "ApiApplied":
+            s.log("ApiApplied", n=info["n"], inv=self.rec.inv)
+            return      # no scheduling point between applying the batch and logging it
         elif kind == "ApiReturn":
             s.progress()
             s.log("ApiReturn", n=info["n"], ok=info["ok"], err=info["err"], inv=self.rec.inv,
@@ -133,7 +136,8 @@ class Execution:
         cr = sc.get("crash") or {}
         if str(inv) in cr or inv in cr:
             crash_at = cr.get(str(inv), cr.get(inv))
-        elif sc.get("crash_prob") and self.rng.random() < sc["crash_prob"]:
+        elif sc.get("crash_prob") and sum(1 for r in self.invocations if r.outcome == "CRASHED") < sc.get("max_crashes", 3) \
+                and self.rng.random() < sc["crash_prob"]:
             crash_at = self.rng.randrange(1, sc.get("crash_max_step", 400))
         seed = self.rng.randrange(1 << 30)
         if sc.get("strategy") == "pct":
@@ -319,6 +323,10 @@ class Execution:
                     break
                 continue
             if r.outcome in ("CRASHED", "RAISED"):
+                if self.backend.exec_result is not None:
+                    # the execution-level result was durably recorded before the invocation died: the execution is complete
+                    self.final = "SUCCEEDED" if self.backend.exec_result[0] == "SUCCEED" else "FAILED"
+                    break
                 self.now += 0.25
                 continue
             self.final = "BAD:" + str(r.outcome)
